@@ -329,6 +329,129 @@ func c01Snapshot(path string) (c01Snap, []byte, error) {
 	return s, data, nil
 }
 
+// c01Fair draws an unbiased value in [0,n) (rapid's own integer generators
+// favour small values and the bounds).
+func c01Fair(t *rapid.T, label string, n int) int {
+	z := rapid.Uint64().Draw(t, label)
+	z = (z ^ (z >> 30)) * 0xbf58476d1ce4e5b9
+	z = (z ^ (z >> 27)) * 0x94d049bb133111eb
+	z ^= z >> 31
+	return int(z % uint64(n))
+}
+
+// c01InPlace rewrites bytes of the stored file IN PLACE (same inode, same
+// size) and, if keepMtime, puts the exact modification time back with
+// os.Chtimes, so that neither stat size nor mtime betrays the change.
+// kind: flip-bit | flip-bytes | overwrite-same-length | restore.
+func (c *c01Case) inPlace(vi int, kind string, keepMtime bool, lbl string) bool {
+	t := c.t
+	p := c01BlockPath(c.vols[vi].root, c.hash)
+	fi, err := os.Stat(p)
+	if err != nil || fi.Size() == 0 || fi.Size() > BlockSize {
+		return false
+	}
+	size := int(fi.Size())
+	var off int
+	var patch []byte
+	var desc string
+	switch kind {
+	case "flip-bit":
+		off = c01Pos(t, lbl+"Pos", size)
+		old := make([]byte, 1)
+		f, err := os.Open(p)
+		if err != nil {
+			c.infra("in-place: %v", err)
+		}
+		_, err = f.ReadAt(old, int64(off))
+		f.Close()
+		if err != nil {
+			c.infra("in-place: %v", err)
+		}
+		bit := rapid.IntRange(0, 7).Draw(t, lbl+"Bit")
+		patch = []byte{old[0] ^ (1 << uint(bit))}
+		desc = fmt.Sprintf("bit %d of byte %d flipped", bit, off)
+	case "flip-bytes":
+		off = c01Pos(t, lbl+"Pos", size)
+		k := rapid.SampledFrom([]int{2, 8, 512, 4096}).Draw(t, lbl+"Run")
+		if off+k > size {
+			k = size - off
+		}
+		old := make([]byte, k)
+		f, err := os.Open(p)
+		if err != nil {
+			c.infra("in-place: %v", err)
+		}
+		_, err = f.ReadAt(old, int64(off))
+		f.Close()
+		if err != nil {
+			c.infra("in-place: %v", err)
+		}
+		patch = make([]byte, k)
+		for i := range old {
+			patch[i] = ^old[i]
+		}
+		desc = fmt.Sprintf("%d bytes from offset %d inverted", k, off)
+	case "overwrite-same-length":
+		patch = c01Expand(rapid.Uint64().Draw(t, lbl+"Seed"), size)
+		if size == len(c.b) && bytes.Equal(patch, c.b) {
+			patch[0] ^= 0xff
+		}
+		desc = "overwritten with another block of the same length"
+	case "restore":
+		if size != len(c.b) {
+			return false
+		}
+		patch = c.b
+		desc = "true content written back"
+	}
+	f, err := os.OpenFile(p, os.O_WRONLY, 0)
+	if err != nil {
+		c.infra("in-place: %v", err)
+	}
+	_, err = f.WriteAt(patch, int64(off))
+	if cerr := f.Close(); err == nil {
+		err = cerr
+	}
+	if err != nil {
+		c.infra("in-place: %v", err)
+	}
+	if keepMtime {
+		if err := os.Chtimes(p, fi.ModTime(), fi.ModTime()); err != nil {
+			c.infra("in-place: chtimes: %v", err)
+		}
+	}
+	fi2, err := os.Stat(p)
+	if err != nil || fi2.Size() != fi.Size() || (keepMtime && !fi2.ModTime().Equal(fi.ModTime())) || !os.SameFile(fi, fi2) {
+		c.infra("in-place change did not preserve file identity/size/mtime: before %v %d %v, after %v %d %v", fi.Name(), fi.Size(), fi.ModTime(), err, fi2.Size(), fi2.ModTime())
+	}
+	mt := "mtime put back"
+	if !keepMtime {
+		mt = "mtime left to change"
+	}
+	c.hist = append(c.hist, fmt.Sprintf("harness changes the copy on volume[%d] IN PLACE (same file, same size %d, %s): %s", vi, size, mt, desc))
+	what := "corrupt"
+	if kind == "restore" {
+		what = "restore"
+	}
+	if keepMtime {
+		what += ",same-mtime"
+	} else {
+		what += ",new-mtime"
+	}
+	c.inplace[vi] = what
+	c.label("inplace:" + kind)
+	if kind != "restore" {
+		c.label("corrupted-between-requests")
+		if c.served[vi] {
+			c.label("inplace-corruption-of-a-copy-that-was-served-before/" + what[len("corrupt,"):])
+		}
+	} else if c.rejected[vi] {
+		c.label("inplace-restore-of-a-copy-that-was-rejected-before")
+	}
+	c.script = append(c.script, "inplace:"+kind)
+	return true
+}
+
 // ---------------------------------------------------------------- requests
 
 type c01Resp struct {
@@ -403,6 +526,11 @@ type c01Case struct {
 	labels  map[string]bool
 	nontriv bool
 	script  []string
+	// round 3: in-place corruption (same inode, size and mtime) of copies that
+	// the handler has already read successfully in this process
+	served   map[int]bool   // volume index -> a successful GET/HEAD was answered from this copy
+	rejected map[int]bool   // volume index -> a read failed while this copy was the corrupt one
+	inplace  map[int]string // volume index -> in-place change applied since the last read
 }
 
 func (c *c01Case) label(l string) { c.labels[l] = true }
@@ -477,6 +605,37 @@ func (c *c01Case) read(method, hint string, wire bool, why string) int {
 	c.label(fmt.Sprintf("%s:%d", strings.ToLower(method), r.Status))
 	if len(bad) > 0 {
 		c.nontriv = true
+	}
+	ok := r.Status >= 200 && r.Status < 300
+	for vi, what := range c.inplace {
+		// the first read after an in-place change of volume vi
+		first := len(intact) == 0 || vi <= intact[0] // the handler reaches this copy before any intact one
+		if strings.HasPrefix(what, "corrupt") && c.served[vi] {
+			out := "refused"
+			if ok {
+				out = "served-from-another-volume"
+			}
+			l := "reread-after-inplace-corruption-of-served-copy(" + what[len("corrupt,"):] + "):" + out
+			c.label(l)
+			if first {
+				c.label("reread-after-inplace-corruption-of-served-copy,it-is-consulted-first")
+			}
+			if c.rejected[vi] {
+				c.label("served->corrupted->rejected->restored->served->corrupted-again->reread")
+			}
+		}
+		if strings.HasPrefix(what, "restore") && c.rejected[vi] {
+			c.label("reread-after-inplace-restore-of-rejected-copy(" + what[len("restore,"):] + ")")
+		}
+	}
+	c.inplace = map[int]string{}
+	if ok && len(intact) > 0 {
+		c.served[intact[0]] = true
+	}
+	if !ok {
+		for _, vi := range bad {
+			c.rejected[vi] = true
+		}
 	}
 	if r.Status >= 200 && r.Status < 300 {
 		// (i) a success carries exactly the block
@@ -665,7 +824,7 @@ func c01RunCase(t *rapid.T, fixedSize int) {
 	if err != nil {
 		t.Fatalf("VERIF-INFRA: environment: %v", err)
 	}
-	c := &c01Case{t: t, heavy: heavy, labels: map[string]bool{}}
+	c := &c01Case{t: t, heavy: heavy, labels: map[string]bool{}, served: map[int]bool{}, rejected: map[int]bool{}, inplace: map[int]string{}}
 
 	// ---- block
 	var n int
@@ -724,12 +883,27 @@ func c01RunCase(t *rapid.T, fixedSize int) {
 	}
 
 	// ---- initial placement
+	// Round 3, aimed branch (3 cases in 10): one volume holds an intact copy
+	// that is read first, then changed in place (see the script below).
+	aimed := !heavy && !oversize && n > 0 && c01Fair(t, "aimedInPlace", 10) < 3
+	aimedVol, aimedAlone := -1, false
+	if aimed {
+		aimedVol = c01Fair(t, "aimedVol", nvol)
+		aimedAlone = c01Fair(t, "aimedAlone", 2) == 0
+		c.label("aimed-inplace-script")
+	}
 	c.states = make([]c01State, nvol)
 	for i := range c.vols {
 		if oversize {
 			c.states[i] = c01State{Kind: "absent", Desc: "absent"}
 		} else {
 			c.states[i] = c01DrawState(t, fmt.Sprintf("vol%d", i), c.b, heavy)
+		}
+		if i == aimedVol {
+			c.states[i] = c01State{Kind: "intact", Desc: "intact", data: c.b}
+		} else if aimed && aimedAlone {
+			// no other volume holds anything: the aimed copy is the only one consulted
+			c.states[i] = c01State{Kind: "absent", Desc: "absent"}
 		}
 		if err := c01Apply(c.vols[i].root, c.hash, c.states[i]); err != nil {
 			t.Fatalf("VERIF-INFRA: placing copy: %v", err)
@@ -843,9 +1017,61 @@ func c01RunCase(t *rapid.T, fixedSize int) {
 			c.read("GET", fmt.Sprintf("+%d", n), rapid.Bool().Draw(t, "coreGetWire"), "core")
 			c.script = append(c.script, "core")
 		}
+		if aimed {
+			// read -> corrupt in place -> read -> (read) -> restore in place -> read -> corrupt again -> read
+			rd := func(lbl string) {
+				method := "GET"
+				if c01Fair(t, lbl+"Head", 3) == 0 {
+					method = "HEAD"
+				}
+				hint := hints[c01Fair(t, lbl+"Hint", len(hints))]
+				c.read(method, hint, method == "HEAD" || c01Fair(t, lbl+"Wire", 4) == 0, "aimed")
+				c.script = append(c.script, strings.ToLower(method))
+			}
+			corrupt := func(lbl string) {
+				// the copy the handler reads from: the first intact one in probe
+				// order (sometimes every intact copy)
+				intact, _, _, _ := c.disk()
+				all := c01Fair(t, lbl+"All", 4) == 0
+				kind := []string{"flip-bit", "flip-bit", "flip-bytes", "overwrite-same-length"}[c01Fair(t, lbl+"Kind", 4)]
+				keep := c01Fair(t, lbl+"KeepMtime", 8) > 0
+				for k, vi := range intact {
+					if k == 0 || all {
+						c.inPlace(vi, kind, keep, fmt.Sprintf("%sv%d", lbl, vi))
+					}
+				}
+			}
+			restore := func(lbl string) {
+				_, bad, _, _ := c.disk()
+				keep := c01Fair(t, lbl+"KeepMtime", 8) > 0
+				for _, vi := range bad {
+					if c.rejected[vi] || c.served[vi] {
+						c.inPlace(vi, "restore", keep, fmt.Sprintf("%sv%d", lbl, vi))
+					}
+				}
+			}
+			if c01Fair(t, "aimedSkipFirstRead", 5) > 0 {
+				rd("a1")
+				if c01Fair(t, "aimedReadTwice", 3) == 0 {
+					rd("a1b")
+				}
+			}
+			corrupt("a2")
+			rd("a3")
+			if c01Fair(t, "aimedRereadCorrupt", 3) == 0 {
+				rd("a3b")
+			}
+			if c01Fair(t, "aimedRestore", 4) > 0 {
+				restore("a4")
+				rd("a5")
+				corrupt("a6")
+				rd("a7")
+			}
+			nsteps = rapid.IntRange(0, 3).Draw(t, "nstepsAfterAimed")
+		}
 		for s := 0; s < nsteps; s++ {
 			lbl := fmt.Sprintf("step%d", s)
-			op := rapid.SampledFrom([]string{"get", "get", "get", "head", "head", "put-correct", "put-correct", "put-wrong", "put-wrong", "put-clmismatch", "mutate", "mutate"}).Draw(t, lbl)
+			op := rapid.SampledFrom([]string{"get", "get", "get", "head", "head", "put-correct", "put-correct", "put-wrong", "put-wrong", "put-clmismatch", "mutate", "mutate", "mutate-inplace", "mutate-inplace"}).Draw(t, lbl)
 			wire := rapid.IntRange(0, 3).Draw(t, lbl+"Wire") == 0
 			switch op {
 			case "get":
@@ -917,6 +1143,15 @@ func c01RunCase(t *rapid.T, fixedSize int) {
 					c.put("put-clmismatch/"+k, c.b, -1, false)
 				}
 				c.script = append(c.script, "put-clmismatch/"+k)
+			case "mutate-inplace":
+				vi := c01Fair(t, lbl+"Vol", nvol)
+				kind := []string{"flip-bit", "flip-bit", "flip-bytes", "overwrite-same-length", "restore"}[c01Fair(t, lbl+"Kind", 5)]
+				if heavy && kind == "overwrite-same-length" {
+					kind = "flip-bytes"
+				}
+				if !c.inPlace(vi, kind, c01Fair(t, lbl+"KeepMtime", 4) > 0, lbl) {
+					c.script = append(c.script, "inplace:not-applicable")
+				}
 			case "mutate":
 				vi := rapid.IntRange(0, nvol-1).Draw(t, lbl+"Vol")
 				st := c01DrawState(t, lbl, c.b, heavy)
